@@ -53,6 +53,11 @@ def classify_schema(err_key, mixed_minor, cls, info):
     if err_key == "/cells/*/metadata/tags:uniqueItems":
         return "metadata-tags-duplicated-by-list-merge"
     if mixed_minor and all(p in ("/cells/*:additionalProperties:id", "/cells/*:required:id") for p in parts):
+        if info and info.get("_declared_is_max") is False:
+            # the known finding is about a merged notebook that declares what the documented rule gives (the changed side's
+            # minor; the HIGHEST when both sides changed it differently: take-max) while its cells come from all sides; a
+            # merged notebook that declares less than the highest although both sides changed the minor is something else
+            return "declared-minor-is-not-the-highest-of-the-three"
         return "mixed-minor-cell-ids"
     retyped = bool(info and info.get("_retyped"))
     if retyped and all(_retype_part(p) for p in parts):
@@ -146,7 +151,7 @@ def merge_case(col, paths, cls, b, l, rm, info, cfg, variant, schema, prop):
             if k in seen:
                 continue
             seen.add(k)
-            col.violation(classify_schema(k, mixed, cls, {'_retyped': retyped_by_id(b, l, rm)}),
+            col.violation(classify_schema(k, mixed, cls, {'_retyped': retyped_by_id(b, l, rm), "_declared_is_max": (merged.get("nbformat_minor") == max(minors)) or not (minors[1] != minors[0] and minors[2] != minors[0] and minors[1] != minors[2])}),
                           "merged notebook (declares 4.%s) invalid: %s: %s [class=%s cfg=%s]" % (
                               merged.get("nbformat_minor"), k, getattr(e, "message", "")[:120], cls, cfg), case, "schema")
     if len(col.samples) < 2 and nconf and len(decisions) <= 6:
@@ -260,7 +265,7 @@ def file_case(col, cls, b, l, rm, info, cfg, r):
         if k_ in seen:
             continue
         seen.add(k_)
-        col.violation(classify_schema(k_, len(set(minors)) > 1, cls, {"_retyped": retyped_by_id(b, l, rm)}),
+        col.violation(classify_schema(k_, len(set(minors)) > 1, cls, {"_retyped": retyped_by_id(b, l, rm), "_declared_is_max": (merged.get("nbformat_minor") == max(minors)) or not (minors[1] != minors[0] and minors[2] != minors[0] and minors[1] != minors[2])}),
                       "file written by nbmerge --out (declares 4.%s) invalid: %s [class=%s cfg=%s]" % (merged.get("nbformat_minor"), k_, cls, cfg),
                       {"base": b, "local": l, "remote": rm, "class": cls, "info": info, "config": cfg, "path_variant": "full", "file": True}, "schema-file")
 
